@@ -33,13 +33,13 @@ EXPLANATION = ("Sparse conditional constant propagation of every material factor
 
 
 def run(ctx):
-    d1(ctx)
-    d1_hardening(ctx)
+    ctx.guard(d1, ctx)
+    ctx.guard(d1_hardening, ctx)
     from . import units
-    units.run(ctx, "D1/T8-dimensional-homogeneity", {m for (m, f, k) in mt.MODELS if k == "solid" and not m.endswith("J2Plastic") and "Visco" not in m}, min_scenarios=3)
-    frames.run_frames(ctx, "D2/T9-frames", which="C08")
+    ctx.guard(units.run, ctx, "D1/T8-dimensional-homogeneity", {m for (m, f, k) in mt.MODELS if k == "solid" and not m.endswith("J2Plastic") and "Visco" not in m}, min_scenarios=3)
+    ctx.guard(frames.run_frames, ctx, "D2/T9-frames", which="C08")
     from . import tensorid
-    tensorid.run_identities(ctx, "D2/T7-tensor-helper-identities", ["inv", "detpIm1", "det", "deviator", "sym", "norm_of_deviator_squared"])
+    ctx.guard(tensorid.run_identities, ctx, "D2/T7-tensor-helper-identities", ["inv", "detpIm1", "det", "deviator", "sym", "norm_of_deviator_squared"])
     ctx.trust("first-order Taylor arithmetic on dual numbers; isotropic tensor functions act on diagonal matrices entrywise")
     ctx.assume("material constants and dt are positive; virgin flow stress > 0; rate-sensitivity and hardening exponents > 0")
 
